@@ -79,7 +79,13 @@ type vfC16Model struct {
 	// kickPending: the server will close the connection as soon as it relays the next byte/datagram of it, i.e.
 	// during or right after the next successful call; until then the connection still works
 	kickPending bool
+	// attemptStart: real clock at the start of the constructor / call being judged (watchdog for real-time cases)
+	attemptStart time.Time
 }
+
+// vfC16RealTimeStall: a connect attempt over the 200 µs simulated link of a real-time case normally takes
+// a few milliseconds; beyond this much REAL time its failure is attributed to a stalled machine.
+const vfC16RealTimeStall = 3 * time.Second
 
 // beforeAttempt: the harness brings the server back once the scripted number of attempts failed.
 func (m *vfC16Model) maybeRestart(t *testing.T) {
@@ -110,6 +116,14 @@ func (m *vfC16Model) attemptFailed(reachedNetwork bool) {
 // exactly one evaluation; success => exactly one connectedFunc and state live.
 func (m *vfC16Model) judgeAttempt(what string, mustSucceed bool, wasArmed string, evals, connects int, class string, errStr string) {
 	e := m.e
+	if !e.inBubble && mustSucceed && class != vfC16ClsOK && !m.attemptStart.IsZero() && time.Since(m.attemptStart) > vfC16RealTimeStall {
+		// Real-time cases only (a rejected authentication cannot run in a bubble): a connect attempt over a
+		// 200 µs link that takes seconds of REAL time means the machine stalled (handshake timers of either
+		// end fired). Wall-clock watchdog: inconclusive, never a verdict. The same scripts run exactly, on
+		// virtual time, in the bubble cases.
+		e.k.Inconclusive(fmt.Sprintf("%s: %s took %v of real time on an idle simulated link and failed (%s %s): stalled machine", e.caseID, what, time.Since(m.attemptStart).Round(time.Millisecond), class, errStr))
+		return
+	}
 	switch {
 	case evals == 0:
 		e.violation("client:config-not-reevaluated", map[string]any{"what": what},
@@ -160,6 +174,7 @@ func (m *vfC16Model) doCall(t *testing.T, kind string) {
 	}
 	stateBefore := m.conn
 	holds := e.heldCount()
+	m.attemptStart = time.Now()
 	r := e.call(kind, 0)
 	what := fmt.Sprintf("call #%d (%s) in state %s", r.N, kind, stateBefore)
 	es := ""
@@ -405,6 +420,7 @@ func vfC16RunCaseBody(t *testing.T, k *vfKit, c vfC16Case) {
 			armed = "srv_down"
 		}
 		e.ev("ctor_start", "", map[string]any{"op": map[bool]string{true: "lazy", false: "eager"}[c.Lazy]})
+		m.attemptStart = time.Now()
 		rc, cerr := client.NewReconnectableClient(e.configFunc, e.connected, c.Lazy)
 		cls, _ := vfC16Classify(cerr)
 		e.mu.Lock()
@@ -806,8 +822,13 @@ func vfC16RunConc(t *testing.T, k *vfKit, c vfC16ConcCase) {
 	}
 	defer e.cleanup()
 	e.evalDelay = time.Duration(c.EvalDelay) * time.Microsecond
+	ctorStart := time.Now()
 	rc, cerr := client.NewReconnectableClient(e.configFunc, e.connected, c.Lazy)
 	if cerr != nil || rc == nil {
+		if time.Since(ctorStart) > vfC16RealTimeStall {
+			e.k.Inconclusive(fmt.Sprintf("%s: constructor took %v of real time on an idle simulated link and failed (%v): stalled machine", e.caseID, time.Since(ctorStart).Round(time.Millisecond), cerr))
+			return
+		}
 		e.violation("client:reconnect-not-transparent", nil, "constructor with a healthy server failed: %v", cerr)
 		return
 	}
@@ -983,8 +1004,11 @@ func vfC16RunConc(t *testing.T, k *vfKit, c vfC16ConcCase) {
 			}
 			if failed.Class != vfC16ClsOK && failed.Class != vfC16ClsSL {
 				e.release(0)
+				p2Start := time.Now()
 				p2 := e.call("tcp", 0)
-				if p2.Evals != 1 || p2.Connects != 1 || p2.Class != vfC16ClsOK {
+				if p2.Class != vfC16ClsOK && time.Since(p2Start) > vfC16RealTimeStall {
+					e.k.Inconclusive(fmt.Sprintf("%s: the call after a reported loss took %v of real time on an idle simulated link and failed (%v): stalled machine", e.caseID, time.Since(p2Start).Round(time.Millisecond), p2.Err))
+				} else if p2.Evals != 1 || p2.Connects != 1 || p2.Class != vfC16ClsOK {
 					e.violation("client:reconnect-not-transparent", map[string]any{"call": p2.N, "evaluations": p2.Evals, "connects": p2.Connects, "class": p2.Class},
 						"the call after a reported loss (probe #%d): evaluations=%d connects=%d result=%s %v (want exactly 1, 1, ok)", p2.N, p2.Evals, p2.Connects, p2.Class, p2.Err)
 				} else {
